@@ -195,9 +195,17 @@ pub fn build<T: Q, const N: usize>(g: &Ghost<N>, spare: usize) -> T {
     T::from_raw(mk_map::<T::H>(entries, N + spare), heap, qp, N)
 }
 
+/// unused capacity of the generated pre-states (two slots unless an instance asks otherwise)
+pub static mut SPARE: usize = 2;
+pub fn set_spare(s: usize) {
+    unsafe {
+        SPARE = s;
+    }
+}
+
 pub fn state<T: Q, const N: usize>(pre: Pre, tables: Tables) -> (T, Ghost<N>) {
     let g = ghost::<N>(T::DOUBLE, pre, tables);
-    let q = build::<T, N>(&g, 2);
+    let q = build::<T, N>(&g, unsafe { SPARE });
     (q, g)
 }
 
@@ -229,6 +237,6 @@ pub fn state_spare<T: Q, const N: usize>(pre: Pre, tables: Tables, spare: usize)
 /// pre-state over the concrete keys `keys`
 pub fn state_keys<T: Q, const N: usize>(pre: Pre, tables: Tables, keys: [u8; N]) -> (T, Ghost<N>) {
     let g = ghost_with::<N>(T::DOUBLE, pre, tables, Some(keys));
-    let q = build::<T, N>(&g, 2);
+    let q = build::<T, N>(&g, unsafe { SPARE });
     (q, g)
 }
